@@ -817,3 +817,200 @@ Proof.
   rewrite (span_digits_app (String c r) " but" Hd eq_refl).
   reflexivity.
 Qed.
+
+(* ------------------------------------------------ cellcard.split, LIKE branch *)
+Lemma slength_app (a b : string) : String.length (a ++ b) = (String.length a + String.length b)%nat.
+Proof. induction a as [|c a IH]; cbn; [reflexivity|now rewrite IH]. Qed.
+
+Lemma substring_app (a b : string) : substring 0 (String.length a) (a ++ b) = a.
+Proof. induction a as [|c a IH]; cbn; [destruct b; reflexivity|now rewrite IH]. Qed.
+
+Lemma sdrop_app (a b : string) : sdrop (String.length a) (a ++ b) = b.
+Proof. induction a as [|c a IH]; cbn; [reflexivity|exact IH]. Qed.
+
+Lemma slength_smap f (s : string) : String.length (smap f s) = String.length s.
+Proof. induction s as [|c s IH]; cbn; [reflexivity|now rewrite IH]. Qed.
+
+Lemma substring_0_0 (s : string) : substring 0 0 s = EmptyString.
+Proof. destruct s; reflexivity. Qed.
+
+Lemma is_ws_lower (a : ascii) : is_ws (lower_char a) = is_ws a.
+Proof. destruct a as [[] [] [] [] [] [] [] []]; vm_compute; reflexivity. Qed.
+
+Lemma lower_app (a b : string) : lower (a ++ b) = lower a ++ lower b.
+Proof. apply smap_app. Qed.
+
+(* no "but" (any case) starts anywhere in s *)
+Lemma last_but_none (s : string) : has "but" (lower s) = false -> last_but s = None.
+Proof.
+  induction s as [|c r IH]; intros H; [reflexivity|].
+  cbn [lower smap has] in H. apply orb_false_iff in H. destruct H as [H1 H2].
+  cbn [last_but]. rewrite (IH H2). cbn [lower smap]. rewrite H1. reflexivity.
+Qed.
+
+Lemma last_but_skip (x s : string) k :
+  last_but s = Some k -> last_but (x ++ s) = Some (String.length x + k)%nat.
+Proof.
+  intros H. induction x as [|c x IH]; [exact H|].
+  cbn [append last_but String.length]. rewrite IH. reflexivity.
+Qed.
+
+Lemma last_but_B (B rest : string) :
+  lower B = "but" -> has "but" (lower rest) = false -> last_but (B ++ rest) = Some 3%nat.
+Proof.
+  intros HB Hr.
+  destruct B as [|b1 [|b2 [|b3 [|b4 B']]]]; try discriminate HB.
+  cbn [lower smap] in HB. injection HB as H1 H2 H3.
+  cbn [append last_but]. rewrite (last_but_none rest Hr).
+  cbn [lower smap]. rewrite H1, H2, H3.
+  cbn. destruct (smap lower_char rest); reflexivity.
+Qed.
+
+Lemma digit_is_digit_head (name : string) : all_digits name = true -> name <> EmptyString ->
+  skip_ws name = name /\ forall t, skip_ws (name ++ t) = name ++ t.
+Proof.
+  intros Hd Hn. destruct name as [|c r]; [congruence|].
+  cbn in Hd. apply andb_true_iff in Hd. destruct Hd as [Hc _].
+  split; [cbn; now rewrite (digit_not_ws c Hc)|intros t; cbn; now rewrite (digit_not_ws c Hc)].
+Qed.
+
+Theorem split_like_card (name L ds B rest : string) :
+  all_digits name = true -> name <> EmptyString -> lower L = "like" ->
+  all_digits ds = true -> lower B = "but" -> has "but" (lower rest) = false ->
+  split_like (name ++ " " ++ L ++ " " ++ ds ++ " " ++ B ++ rest) =
+  Some (name, " " ++ L ++ " " ++ ds ++ " " ++ B, rest).
+Proof.
+  intros Hname Hne HL Hds HB Hrest.
+  destruct L as [|l1 [|l2 [|l3 [|l4 [|l5 L']]]]]; try discriminate HL.
+  pose proof HL as HL'. cbn [lower smap] in HL'. injection HL' as E1 E2 E3 E4.
+  unfold split_like.
+  destruct (digit_is_digit_head name Hname Hne) as [_ Hskip]. rewrite Hskip.
+  cbn [append].
+  rewrite span_digits_app by (assumption || reflexivity).
+  destruct name as [|n0 name'] eqn:En; [congruence|]. rewrite <- En.
+  assert (Hl1 : is_ws l1 = false).
+  { rewrite <- is_ws_lower, E1. reflexivity. }
+  cbn [append starts_ws skip_ws]. change (is_ws " ") with true. cbn iota.
+  rewrite Hl1. cbn [andb].
+  cbn [lower smap prefix]. rewrite E1, E2, E3, E4. cbn [prefix].
+  replace (if ascii_dec "l" "l" then _ else _) with true by reflexivity.
+  (* lead = 1 *)
+  set (tail := ds ++ String " " (B ++ rest)).
+  cbn [String.length]. rewrite Nat.sub_diag.
+  replace (S (S (S (S (S (S (String.length tail))))))
+           - S (S (S (S (S (String.length tail))))))%nat with 1%nat by lia.
+  cbn [Nat.add sdrop].
+  assert (Hlast : last_but (String " " tail) = Some (String.length (" " ++ ds ++ " ") + 3)%nat).
+  { unfold tail.
+    replace (String " " (ds ++ String " " (B ++ rest))) with ((" " ++ ds ++ " ") ++ (B ++ rest))
+      by (cbn [append]; rewrite sapp_assoc; reflexivity).
+    apply last_but_skip, last_but_B; assumption. }
+  rewrite Hlast. rewrite substring_0_0. cbn [append].
+  assert (HlB : String.length B = 3%nat).
+  { rewrite <- (slength_smap lower_char B). change (smap lower_char B) with (lower B).
+    rewrite HB. reflexivity. }
+  set (P := String " " (String l1 (String l2 (String l3 (String l4
+              (String " " (ds ++ String " " B))))))).
+  assert (HG : String " " (String l1 (String l2 (String l3 (String l4 (String " " tail)))))
+               = P ++ rest).
+  { unfold P, tail. cbn [append]. do 6 f_equal. rewrite sapp_assoc. reflexivity. }
+  assert (HG2 : String " " tail = (String " " (ds ++ " ") ++ B) ++ rest).
+  { unfold tail. cbn [append]. f_equal. rewrite !sapp_assoc. reflexivity. }
+  assert (HlP : (S (S (S (S (S (String.length (String " " (ds ++ " ")) + 3))))))%nat
+                = String.length P).
+  { unfold P. cbn [String.length]. rewrite !slength_app. cbn [String.length]. lia. }
+  assert (Hl2 : (String.length (String " " (ds ++ " ")) + 3)%nat
+                = String.length (String " " (ds ++ " ") ++ B)).
+  { rewrite slength_app. lia. }
+  rewrite HG, HlP, substring_app. rewrite HG2, Hl2, sdrop_app. reflexivity.
+Qed.
+
+Lemma lower_digit (c : ascii) : is_digit c = true -> lower_char c = c.
+Proof.
+  unfold is_digit, lower_char. intros H. apply andb_true_iff in H. destruct H as [H1 H2].
+  apply N.leb_le in H1. apply N.leb_le in H2.
+  destruct ((65 <=? N_of_ascii c) && (N_of_ascii c <=? 90))%N eqn:E; [|reflexivity].
+  apply andb_true_iff in E. destruct E as [E1 E2]. apply N.leb_le in E1. lia.
+Qed.
+
+Lemma lower_digits (ds : string) : all_digits ds = true -> lower ds = ds.
+Proof.
+  induction ds as [|c r IH]; intros H; [reflexivity|].
+  cbn in H. apply andb_true_iff in H. destruct H as [Hc Hr].
+  cbn [lower smap]. rewrite (lower_digit c Hc). f_equal. apply IH, Hr.
+Qed.
+
+(* ... and LIKE_RE finds n in the geometry text that split returns *)
+Theorem split_then_like_re (L ds B : string) :
+  lower L = "like" -> all_digits ds = true -> ds <> EmptyString -> lower B = "but" ->
+  search_like (lower (" " ++ L ++ " " ++ ds ++ " " ++ B)) = Some (Z.of_N (parse_digits ds 0%N)).
+Proof.
+  intros HL Hd Hn HB.
+  rewrite !lower_app, HL, HB, (lower_digits ds Hd).
+  change (lower " ") with " ". apply (like_re_recognises ds Hd Hn).
+Qed.
+(* ---- later keyword wins at any scalar type, for overrides without IMP ---- *)
+Section AnyScalar.
+  Context {T : Type} (SC : Scalar T).
+  Notation env := (env (T:=T)).
+  Notation kws := (kws (T:=T)).
+
+  Lemma upd_assoc_noimp (st a d : kws) :
+    k_imp d = None -> upd SC (upd SC st a) d = upd SC st (upd SC a d).
+  Proof.
+    destruct st as [i1 fb1 fu1 fp1 l1 t1 u1 r1 m1].
+    destruct a as [i2 fb2 fu2 fp2 l2 t2 u2 r2 m2].
+    destruct d as [i3 fb3 fu3 fp3 l3 t3 u3 r3 m3].
+    cbn. intros ->. unfold upd; cbn. f_equal.
+    - destruct fu3, fu2; reflexivity.
+    - destruct fu3, fu2; reflexivity.
+    - destruct fu3, fu2; reflexivity.
+    - destruct l3, l2; reflexivity.
+    - destruct t3, t2; reflexivity.
+    - destruct u3, u2; reflexivity.
+    - destruct r3, r2; reflexivity.
+    - destruct m3, m2; reflexivity.
+  Qed.
+
+  Lemma upd_imp_none (a d : kws) : k_imp (upd SC a d) = None -> k_imp d = None.
+  Proof. unfold upd; cbn. destruct (k_imp d); [discriminate|reflexivity]. Qed.
+
+  Lemma parse_from_imp_none (e : env) f : forall toks a r,
+    parse_from SC f e a toks = Ok r -> k_imp r = None -> k_imp a = None.
+  Proof.
+    induction f as [|f IH]; intros toks a r H Hr.
+    - destruct toks; [|discriminate]. cbn in H. inversion H; subst. exact Hr.
+    - destruct toks as [|elt rest].
+      + cbn in H. inversion H; subst. exact Hr.
+      + cbn [parse_from] in H.
+        destruct (step SC e elt rest) as [[d rest']|]; [|discriminate].
+        cbn [bind] in H. specialize (IH _ _ _ H Hr).
+        unfold upd in IH; cbn in IH. destruct (k_imp d); [discriminate|exact IH].
+  Qed.
+
+  Lemma parse_from_upd_noimp (e : env) f : forall toks st a r,
+    parse_from SC f e a toks = Ok r -> k_imp r = None ->
+    parse_from SC f e (upd SC st a) toks = Ok (upd SC st r).
+  Proof.
+    induction f as [|f IH]; intros toks st a r H Hr.
+    - destruct toks; [|discriminate]. cbn in *. inversion H; subst. reflexivity.
+    - destruct toks as [|elt rest].
+      + cbn in *. inversion H; subst. reflexivity.
+      + cbn [parse_from] in *.
+        destruct (step SC e elt rest) as [[d rest']|]; [|discriminate].
+        cbn [bind] in *.
+        pose proof (parse_from_imp_none e f _ _ _ H Hr) as Hd.
+        apply upd_imp_none in Hd.
+        rewrite (upd_assoc_noimp st a d Hd). apply IH; assumption.
+  Qed.
+
+  Theorem keywords_later_wins_noimp (e : env) (opts ovr : list string) (k1 k2 : kws) :
+    parse_kws SC e opts = Ok k1 -> parse_kws SC e ovr = Ok k2 -> kw_head ovr ->
+    k_imp k2 = None ->
+    parse_kws SC e (opts ++ ovr) = Ok (upd SC k1 k2).
+  Proof.
+    intros H1 H2 Hk Hi. rewrite (parse_kws_app SC e opts ovr k1 H1 Hk).
+    unfold parse_kws in H2.
+    rewrite <- (upd_kempty_r SC k1) at 1. apply parse_from_upd_noimp; assumption.
+  Qed.
+End AnyScalar.
